@@ -54,7 +54,7 @@ def run(ctx):
     cb = res.clause('C01.b', 'R-AGREE', 'envelope tags written by the executor are the tags the reader raises / returns', floor=3)
     written = {}      # tag -> context ('handler' | 'normal')
     for n in ast.walk(ex.node):
-        if isinstance(n, ast.Call) and isinstance(n.func, ast.Attribute) and n.func.attr == '_record_data' and len(n.args) == 2 \
+        if isinstance(n, ast.Call) and isinstance(n.func, ast.Attribute) and n.func.attr == roles.record_data.name and len(n.args) == 2 \
                 and isinstance(n.args[1], ast.Dict):
             for k in n.args[1].keys:
                 if isinstance(k, ast.Constant):
